@@ -160,6 +160,8 @@ BatchClauses(b) ==
   \cup When(cfg.idem /\ b.pid >= 0 /\ ~seen /\ overlap = {} /\ b.seq # nextSeq, "sequence_contiguous")
   \cup When(Len(b.ids) > 1 /\ b.kvbytes > cfg.maxMsgBytes, "max_message_bytes")
   \cup When(\E k \in DOMAIN b.ids : b.ids[k] \in submitted /\ subInfo[b.ids[k]].size > cfg.maxMsgBytes, "oversize_rejected_not_sent")
+  \* a batch of one message whose key+value bytes ON THE WIRE exceed the limit (e.g. grown by an interceptor)
+  \cup When(Len(b.ids) = 1 /\ b.kvbytes > cfg.maxMsgBytes, "oversize_rejected_not_sent")
 
 RECURSIVE AddBatches(_, _)
 AddBatches(w, bs) ==
